@@ -218,11 +218,23 @@ func quotedQualifierParser(prefix string) pars.Parser {
 		state.Drop()
 		pars.EOL(state, pars.Void)
 		token := result.Token
-		i := bytes.Index(token, p)
-		for i >= 0 {
-			n := copy(token[i+1:], token[i+len(p):])
-			token = token[:i+1+n]
-			i = bytes.Index(token, p)
+		if i := bytes.Index(token, p); i >= 0 {
+			// Strip the indent after each line break in a single pass:
+			// w is where the next kept byte goes, r the next byte to read.
+			w, r := i+1, i+len(p)
+			for {
+				for len(prefix) > 0 && bytes.HasPrefix(token[r:], p[1:]) {
+					r += len(prefix)
+				}
+				j := bytes.Index(token[r:], p)
+				if j < 0 {
+					w += copy(token[w:], token[r:])
+					break
+				}
+				w += copy(token[w:], token[r:r+j+1])
+				r += j + len(p)
+			}
+			token = token[:w]
 		}
 		result.SetToken(token)
 		return nil
